@@ -307,6 +307,18 @@ func crashSite(text string) string {
 }
 
 func panicLine(text string) string {
+	// logrus prints the message of a Panicf before panicking with the entry
+	for _, l := range strings.Split(text, "\n") {
+		if strings.Contains(l, "level=panic") {
+			if i := strings.Index(l, "msg="); i >= 0 {
+				l = l[i:]
+			}
+			if len(l) > 300 {
+				l = l[:300]
+			}
+			return "panic: " + l
+		}
+	}
 	for _, l := range strings.Split(text, "\n") {
 		if strings.HasPrefix(l, "panic:") || strings.HasPrefix(l, "fatal error:") {
 			if len(l) > 300 {
